@@ -60,7 +60,8 @@ def encLine (c : Consts) (kind : String) (w : List String) : String :=
   | some s =>
     let b := if kind == "theta_v1" then encodeV1 c s else if kind == "theta_v2" then encodeV2 c s
              else if kind == "theta_v4" then encodeCompressed c s else encode c s
-    s!"HEX {listBytesHex b} wf={boolStr (decide (WFLegacy s))}"
+    let wf := if kind == "theta_v1" || kind == "theta_v2" then decide (WFLegacy s) else decide (WF s)
+    s!"HEX {listBytesHex b} wf={boolStr wf}"
   | none => "bad-content"
 
 end DS.Wire.Theta
